@@ -95,7 +95,7 @@ Print Assumptions logger_transparent.
 Theorem model_meets_spec : forall (e : env) (next : handler),
   (forall r w tr, next w_reset [] = (r, w, tr) -> logs_of tr = []) ->
   spec_ok (e_kind e) (e_glob e) (e_route e) (e_method e) (e_host e) (e_path e) (e_remote e)
-          (match next w_reset [] with (Panicked id, _, _) => Some id | _ => None end)
+          (match next w_reset [] with (Panicked id, _, _) => Some id | _ => None end) 1%nat
           (observe e next) = true.
 Proof. exact model_meets_spec_proof. Qed.
 Print Assumptions model_meets_spec.
@@ -113,3 +113,29 @@ Example flush_then_superfluous_header :
       (S2B "path", VStr (S2B "/x")); (S2B "latency", VDur)]]
   /\ w_status (snd (fst (run_actions [AFlush FNone; AWriteHeader 500] w_reset []))) = 500.
 Proof. split; reflexivity. Qed.
+
+(* n Logger instances in the chain: n records, each assembled from the state the handler left,
+   all after the handler; none if it panics *)
+Theorem loggers_records : forall n (e : env) (next : handler) w tr,
+  (forall w' tr', next w tr = (Returned, w', tr') ->
+     loggers n e next w tr = (Returned, w', tr' ++ repeat (EvLog (assemble e w')) n)) /\
+  (forall id w' tr', next w tr = (Panicked id, w', tr') ->
+     loggers n e next w tr = (Panicked id, w', tr')).
+Proof. exact loggers_records_proof. Qed.
+Print Assumptions loggers_records.
+
+(* one record per request per Logger instance, as the options say: the number of instances fox's
+   composition runs (records appended by WithMiddleware / WithMiddlewareFor / route-level
+   WithMiddleware, then applyMiddleware or applyRouteMiddleware, for every entry point) is the
+   number the specification expects *)
+Theorem chain_meets_spec : forall k d globals tl al,
+  d = DServe \/ has_route k = true ->      (* the alias / Lookup entry points reach route handlers only *)
+  loggers_run k d globals tl al = expected_records k d globals tl al.
+Proof. exact chain_meets_spec_proof. Qed.
+Print Assumptions chain_meets_spec.
+
+Example chain_nonvacuous :
+  let globals := [AWithMiddlewareFor [SRoute; SNoRoute]; AWithMiddleware; AWithMiddlewareFor [SOptions]] in
+  map (fun d => loggers_run KRoute d globals 1 0) [DServe; DAliasMiddleware; DAliasHandle; DLookupMiddleware; DLookupHandle]
+  = [3; 3; 2; 1; 0]%nat /\ loggers_run KNoRoute DServe globals 1 0 = 2%nat /\ loggers_run KRedirect DServe globals 1 0 = 1%nat.
+Proof. repeat split. Qed.
